@@ -130,9 +130,43 @@ func checkLegal(c *Case, r *mon.Rec, fr specref.Framing, q specref.Req, qty int)
 		}
 		r.Cover("via-struct-literal", fmt.Sprintf("fc%d", q.FC))
 	}
+	checkLegalReq(c, r, fr, q, qty, req)
+	// values of the same request that the constructors never produce but a caller (or a foreign master whose frame is
+	// re-encoded) legitimately does: the extreme transaction ids, and an FC15 payload whose spare bits in the last byte are
+	// not zero (the specification says masters "should" zero-fill them; the quantity decides which bits count, and
+	// encode -> parse -> encode has to give the bytes back either way)
+	if (int(q.Addr)+qty)%4 == 0 {
+		if fr == specref.TCP {
+			for _, tid := range []uint16{0, 0xFFFF} {
+				q2 := q
+				q2.TID = tid
+				if r2, err := libx.NewRequest(fr, q2); err == nil {
+					checkLegalReq(c, r, fr, q2, qty, r2)
+					r.Cover("extreme-transaction-id", fmt.Sprint(tid))
+				}
+			}
+		}
+		if q.FC == 15 && q.Qty%8 != 0 && len(q.Data) > 0 {
+			q2 := q
+			q2.Data = append([]byte{}, q.Data...)
+			q2.Data[len(q2.Data)-1] |= byte(0xFF) << (q.Qty % 8) & byte(0x55+qty)
+			body := packet.WriteMultipleCoilsRequest{UnitID: q2.Unit, StartAddress: q2.Addr, CoilCount: q2.Qty, Data: append([]byte{}, q2.Data...)}
+			var r2 packet.Request = &packet.WriteMultipleCoilsRequestRTU{WriteMultipleCoilsRequest: body}
+			if fr == specref.TCP {
+				r2 = &packet.WriteMultipleCoilsRequestTCP{MBAPHeader: packet.MBAPHeader{TransactionID: q2.TID}, WriteMultipleCoilsRequest: body}
+			}
+			checkLegalReq(c, r, fr, q2, qty, r2)
+			r.Cover("fc15-spare-bits-set", "struct-literal")
+		}
+	}
+}
+
+func checkLegalReq(c *Case, r *mon.Rec, fr specref.Framing, q specref.Req, qty int, req packet.Request) {
 	wire := req.Bytes()
 	if ref := q.Encode(fr); !bytes.Equal(wire, ref) {
-		return // encoder itself deviates: C01's business
+		// the encoder itself deviates from the reference encoding (C01 reports that); what it emitted still has to
+		// survive the library's own parsers unchanged
+		r.Cover("encoder-deviates-from-reference", fmt.Sprintf("fc%d", q.FC))
 	}
 	for _, en := range entries[[2]int{int(q.FC), int(fr)}] {
 		in := append([]byte{}, wire...)
@@ -289,6 +323,12 @@ func runCube(c *Case, r *mon.Rec) {
 
 func run(ci any, r *mon.Rec) {
 	c := ci.(*Case)
+	defer func() {
+		// the constructors are given sub-slices of larger buffers (libx.NewRequest): the caller's memory must come back untouched
+		if m := libx.TakeArgMutation(); m != "" {
+			r.Violate(c, "constructor-mutates-argument", mon.Attrs{}, m)
+		}
+	}()
 	if c.Kind == "cube" {
 		runCube(c, r)
 		return
